@@ -3,16 +3,20 @@ package h
 import (
 	"bytes"
 	"crypto"
+	"crypto/x509"
 	"fmt"
 	"io"
 	"net/url"
 	"os"
 	"path/filepath"
 	"strings"
+	"time"
 
 	"github.com/ProtonMail/go-crypto/openpgp"
 
 	"github.com/sassoftware/relic/v8/config"
+	"github.com/sassoftware/relic/v8/lib/audit"
+	"github.com/sassoftware/relic/v8/lib/certloader"
 	"github.com/sassoftware/relic/v8/signers"
 	"github.com/sassoftware/relic/v8/zz_verif/core"
 	simos "github.com/sassoftware/relic/v8/zz_verif/simos"
@@ -284,6 +288,37 @@ func (c *signCase) verify(mime string, blob []byte, pgpKeys openpgp.EntityList) 
 		return nil, result, fmt.Errorf("%d signatures found, want 1", len(sigs))
 	}
 	return sigs[0], result, nil
+}
+
+// presign replaces the input by an already signed file: the input signed
+// standalone with the given identity and the result applied as the client
+// does. Signing it again must replace or add a signature like any other.
+func (c *signCase) presign(id *world.Identity, keyName string, pgpKeys openpgp.EntityList) error {
+	mod := signers.ByName(c.Mod)
+	stream, err := c.upload()
+	if err != nil {
+		return fmt.Errorf("transform: %w", err)
+	}
+	fv, err := mod.FlagsFromQuery(c.Flags)
+	if err != nil {
+		return err
+	}
+	cert := &certloader.Certificate{Leaf: id.Cert, Certificates: []*x509.Certificate{id.Cert}, PrivateKey: id.Key, KeyName: keyName}
+	if c.PGP {
+		e, _ := world.PGPEntity(id)
+		cert.PgpKey = e
+	}
+	opts := signers.SignOpts{Path: c.File, Hash: c.Hash, Time: time.Now().UTC(), Flags: fv, Audit: audit.New(keyName, mod.Name, c.Hash)}
+	blob, err := mod.Sign(bytes.NewReader(stream), cert, opts)
+	if err != nil {
+		return fmt.Errorf("sign: %w", err)
+	}
+	_, out, err := c.verify(opts.Audit.GetMimeType(), blob, pgpKeys)
+	if err != nil {
+		return fmt.Errorf("first signature: %w", err)
+	}
+	c.Input = out
+	return nil
 }
 
 // addSigningKeys configures the standard set of served keys: X.509 keys (RSA
